@@ -318,3 +318,12 @@ def _own_suites(tier, seed):
               rule="a busy session (2 channels, consumer with deliveries, call in flight, queued submissions, return/confirm/blocked listeners) whose inbound stream of ~%s is cut by EOF / an I/O error of each of 11 kinds (reset, timed out, interrupted, aborted, broken pipe, ...) / a corrupted frame at %s byte offset, and whose writes fail at every write call of a flush in small pieces; the same faults while the client's own close is under way (Close queued, CloseOk not yet received); afterwards every queue is polled to its end and every kind of submission is attempted" % (
                   "330 bytes", "every 5th" if tier == "quick" else "EVERY")),
     ]
+
+
+# --- suites of neighbouring properties that also decide this one (cross-listed after wave 6) ---------
+_suites_before_wave6 = suites
+
+
+def suites(tier, seed):
+    m = __import__("props.c06", fromlist=["x"])
+    return [s_ for s_ in m.suites(tier, seed) if s_.name == "frames-then-fault-in-the-loop"] + _suites_before_wave6(tier, seed)
